@@ -13,7 +13,29 @@ ANCHOR_FILES = ["nptdms/reader.py", "nptdms/tdms_segment.py", "nptdms/base_segme
 
 RULE_FILES = ("files drawn by harness/gen_files.py and encoded by the Lean spec encoder (1-6 segments, 1-4 channels over the 17 "
               "readable types, all header kinds, new-list / no-metadata flags, 0-3 chunks, contiguous and interleaved, per-segment "
-              "byte order, properties)")
+              "byte order, properties), preceded by one file of 103-120 segments with two channels whose offset arrays agree in the first 100 entries")
+
+
+def many_segments(rnd):
+    """A size class the random generator never reaches: two channels present in more than 100 segments whose per-segment value
+    counts agree for the first K >= 101 segments and differ afterwards while the totals agree (the reader compares the cumulative
+    offset arrays of channels in blocks of 100 entries when it de-duplicates them)."""
+    import struct
+    pa, pb = gen_files.path_of("g", "a"), gen_files.path_of("g", "b")
+    k = rnd.randint(101, 118)
+    base = dict(interleaved=False, big=False, rawFlag=True, daqmxFlag=False, lengthUnknown=False, version=4713, padding=0)
+    val = lambda: struct.pack("<h", rnd.randint(-30000, 30000))
+    segs = [dict(base, hasMeta=True, newList=True, objs=[dict(path=pa, idx=("F", 2, 1, 0), props=[]), dict(path=pb, idx=("F", 2, 1, 0), props=[])],
+                 chunks=[[[val()], [val()]]])]
+    for _ in range(k - 1):
+        segs.append(dict(base, hasMeta=False, newList=False, objs=[], chunks=[[[val()], [val()]]]))
+    # both channels keep data up to the last segment (the offset arrays end at a channel's last segment with data and must have
+    # the same length to be compared at all): ... 1,1 | 2,1 | 1,2
+    segs.append(dict(base, hasMeta=True, newList=False, objs=[dict(path=pa, idx=("F", 2, 2, 0), props=[]), dict(path=pb, idx=("F", 2, 1, 0), props=[])],
+                     chunks=[[[val(), val()], [val()]]]))
+    segs.append(dict(base, hasMeta=True, newList=False, objs=[dict(path=pa, idx=("F", 2, 1, 0), props=[]), dict(path=pb, idx=("F", 2, 2, 0), props=[])],
+                     chunks=[[[val()], [val(), val()]]]))
+    return segs
 
 
 class FileStream:
@@ -27,8 +49,9 @@ class FileStream:
         self.distinct = 0
 
     def __iter__(self):
-        for i in range(self.n):
-            segs = gen_files.FileGen(self.ctx.rnd, **self.opts).draw()
+        first = [many_segments(self.ctx.rnd)]
+        for i in range(-len(first), self.n):
+            segs = first[i] if i < 0 else gen_files.FileGen(self.ctx.rnd, **self.opts).draw()
             e = self.model.ask(gen_files.to_line(segs))
             self.drawn += 1
             if not e.get("ok") or not e.get("wf"):
